@@ -62,6 +62,7 @@ struct wrap_state W = {
     .crash_at = -1,
     .fail_at = -1,
     .short_at = -1,
+    .shrink_at = -1,
     .alloc_fail_at = -1,
     .log = NULL,
 };
@@ -70,7 +71,7 @@ void wrap_reset(void) {
   FILE *log = W.log;
   memset(&W, 0, sizeof W);
   W.clock = 1000000;
-  W.crash_at = W.fail_at = W.short_at = W.alloc_fail_at = -1;
+  W.crash_at = W.fail_at = W.short_at = W.alloc_fail_at = W.shrink_at = -1;
   W.log = log;
 }
 
@@ -242,6 +243,14 @@ ssize_t __wrap_write(int fd, const void *buf, size_t n) {
 
 ssize_t __wrap_sendfile64(int out, int in, off_t *off, size_t n) {
   long idx = W.ncalls;
+  if (W.shrink_at == idx) {
+    /* another process truncates the source while it is being copied */
+    char p[64];
+    snprintf(p, sizeof p, "/proc/self/fd/%d", in);
+    if (truncate(p, (off_t)W.shrink_n)) {
+      perror("shrink");
+    }
+  }
   GATE_FAIL("sendfile", -1);
   if (W.short_at == idx && W.short_n < n) {
     n = W.short_n;
